@@ -257,4 +257,20 @@ CLAIMED["C01"] = dict(
          "carry the source's line numbers (the theorem is exact from round two on); the print order of "
          "BlockBase.tofortran and its overrides is a correspondence check, not a theorem about the Python.",
     technique="Rocq proof (engine: re-parse of a tree's own statements is the identity, from K2) + regenerated tables + print-order and engine correspondence + round-trip search")
+CLAIMED["C03"] = dict(
+    design_ref="DESIGN.md 4 (C03)",
+    text="Theorem (unbounded depth and size): for every expression tree of the standard's grammar R702-R722 over all "
+         "intrinsic and defined operators, rendered with the minimal parentheses, the matcher model -- "
+         "BinaryOpBase/UnaryOpBase.match driven by the rule chain RECORDED from the live classes on every run -- returns "
+         "that tree (precedence, left/right associativity, retained parentheses), under the side condition that "
+         "records finding F1; without it the statement is refuted by a computed witness. Also: every accepted text "
+         "ends with an operand, for every rule chain. Tie: recorded chain == modelled chain (obligation); extracted "
+         "model vs Fortran2003.Expr on every explored expression, malformed renderings included. Search: "
+         "bounded-exhaustive operator trees (<= 2 quick, <= 3 thorough), random to depth 6, 10-14-group chains, and "
+         "the same through full programs.",
+    note="Trusted: Coq kernel (vm_compute for the finite sweep in C03_refuted); tools/translate_expr.py (recorder around "
+         "BinaryOpBase.match/UnaryOpBase.match); the expression correspondence harness. Partial: the model is token-level; "
+         "the lexical layer (operator regular expressions, exponent literals, string_replace_map) is covered by "
+         "correspondence and search only.",
+    technique="Rocq proof (parse(render e) = e by induction over expression trees, chain recorded from the live classes) + model/Expr correspondence + bounded-exhaustive and random expression search")
 NOT_CLAIMED = {}
